@@ -54,8 +54,13 @@ func handParticipants(s *sim.Sim) map[string]bool {
 // RunHistory creates a table from a drawn configuration and plays a drawn
 // number of hands with drawn membership operations. It returns the sim (already
 // finished) for final classification.
+// facadeViaManager routes every table operation of the history driver through a
+// Manager (C17's forwarding check re-uses the other properties' oracles).
+var facadeViaManager bool
+
 func RunHistory(c *run.Ctx, o HistOpts, hooks sim.Hooks, onOp func(s *sim.Sim, op *sim.OpRec)) *sim.Sim {
 	cfg := sim.GenConfig(c.Ch, o.Gen)
+	cfg.ViaManager = facadeViaManager
 	return RunHistoryCfg(c, cfg, o, hooks, onOp)
 }
 
